@@ -68,7 +68,8 @@ class TAny(Ty):
 class TRef(Ty):
     """heap object of class `cls` (identity = Ref term)"""
     kind = 'ref'
-    def __init__(self, cls): self.cls = cls; self.key = 'Ref[%s]' % cls
+    def __init__(self, cls, truthy=None, universal=False):
+        self.cls = cls; self.key = 'Ref[%s]' % cls; self.truthy = truthy; self.universal = universal
     def sort(self):
         if 'Ref' not in _sort_cache:
             _sort_cache['Ref'] = z3.DeclareSort('Ref')
@@ -224,6 +225,8 @@ def join_ty(a, b):
     if a is TBool and b is TInt or a is TInt and b is TBool: return TInt
     if isinstance(a, TEnum) and a.intvalued and b is TInt: return TInt
     if isinstance(b, TEnum) and b.intvalued and a is TInt: return TInt
+    if isinstance(a, TRef) and a.universal and b in (TStr, TInt, TBool): return a
+    if isinstance(b, TRef) and b.universal and a in (TStr, TInt, TBool): return b
     if isinstance(a, TTuple) and isinstance(b, TTuple) and len(a.items) == len(b.items):
         return TTuple([join_ty(x, y) for x, y in zip(a.items, b.items)])
     if isinstance(a, TSeq) and isinstance(b, TTuple):
@@ -255,6 +258,8 @@ def coerce(v, ty):
     if isinstance(v.ty, TTuple) and not v.t and isinstance(ty, (TMap, TSet)):
         if isinstance(ty, TSet): return V(ty, (empty_set_term(ty.elem), z3.IntVal(0)))
         return V(ty, (empty_set_term(ty.k), z3.K(sort_of(ty.k), pack(default_value(ty.v))), z3.IntVal(0)))
+    if isinstance(ty, TRef) and ty.universal and v.ty in (TStr, TInt, TBool):
+        return V(ty, box_term(v))
     if ty is TInt and v.ty is TBool: return V(TInt, z3.If(v.t, z3.IntVal(1), z3.IntVal(0)))
     if ty is TInt and isinstance(v.ty, TEnum) and v.ty.intvalued: return V(TInt, v.ty.value_term(v.t))
     if isinstance(ty, TTuple) and isinstance(v.ty, TTuple) and len(ty.items) == len(v.ty.items):
@@ -270,6 +275,24 @@ def coerce(v, ty):
     if isinstance(ty, TTuple) and isinstance(v.ty, TRec) and len(ty.items) == len(v.ty.fields):
         return V(ty, [coerce(v.t[n], t) for (n, _), t in zip(v.ty.fields, ty.items)])
     raise Unsupported('cannot coerce %r to %r' % (v.ty, ty))
+
+def box_term(v):
+    """injection of a primitive value into the universal object sort (distinct primitives -> distinct objects)"""
+    ref = TRef('_').sort()
+    if v.ty is TStr:
+        return z3.Function('box_str', z3.StringSort(), ref)(v.t)
+    t = v.t if v.ty is TInt else z3.If(v.t, z3.IntVal(1), z3.IntVal(0))
+    return z3.Function('box_int', z3.IntSort(), ref)(t)
+
+def box_facts(v, boxed):
+    """injectivity instance for a freshly boxed primitive"""
+    ref = TRef('_').sort()
+    if v.ty is TStr:
+        return [z3.Function('unbox_str', ref, z3.StringSort())(boxed) == v.t, z3.Function('is_boxed_str', ref, z3.BoolSort())(boxed),
+                z3.Not(z3.Function('is_boxed_int', ref, z3.BoolSort())(boxed))]
+    t = v.t if v.ty is TInt else z3.If(v.t, z3.IntVal(1), z3.IntVal(0))
+    return [z3.Function('unbox_int', ref, z3.IntSort())(boxed) == t, z3.Function('is_boxed_int', ref, z3.BoolSort())(boxed),
+            z3.Not(z3.Function('is_boxed_str', ref, z3.BoolSort())(boxed))]
 
 def default_value(ty):
     """an arbitrary but fixed value of the type (payload of a None option)"""
@@ -339,6 +362,8 @@ def veq(a, b):
         return _enum_str_eq(a, b)
     if isinstance(tb, TEnum) and ta is TStr:
         return _enum_str_eq(b, a)
+    if isinstance(ta, TRef) and ta.universal and tb in (TStr, TInt, TBool): return a.t == box_term(b)
+    if isinstance(tb, TRef) and tb.universal and ta in (TStr, TInt, TBool): return b.t == box_term(a)
     if isinstance(ta, (TAny, TRef)) and isinstance(tb, (TAny, TRef)):
         return a.t == b.t if sort_of(ta) == sort_of(tb) else z3.BoolVal(False)
     if isinstance(ta, (TTuple, TRec)) and isinstance(tb, (TTuple, TRec)):
@@ -379,5 +404,7 @@ def truth(v):
         return z3.BoolVal(True)
     if isinstance(ty, TAny) and ty.truthy == 'uninterpreted':
         return z3.Function('truthy_' + ty.name, sort_of(ty), z3.BoolSort())(v.t)
+    if isinstance(ty, TRef) and ty.truthy == 'uninterpreted':
+        return z3.Function('truthy_' + ty.cls, sort_of(ty), z3.BoolSort())(v.t)
     if isinstance(ty, (TRef, TRec, TAny)) or ty is TExc: return z3.BoolVal(True)
     raise Unsupported('truthiness of %r' % ty)
